@@ -582,13 +582,20 @@ been initialized
                     )
                     raise
         finally:
-            output.write("\n")
-            if hide_cursor:
-                output.write(SHOW_CURSOR)
-            output.flush()
-            if not_echo_input:
-                termios.tcsetattr(output_fd, termios.TCSANOW, old_attr)
-            render_data.finalize()
+            # Each step below must run even if an earlier one fails or is interrupted
+            # (e.g. by CTRL-C while a write to a stalled terminal blocks): input echo
+            # must be re-enabled and the render data finalized regardless.
+            try:
+                output.write("\n")
+                if hide_cursor:
+                    output.write(SHOW_CURSOR)
+                output.flush()
+            finally:
+                try:
+                    if not_echo_input:
+                        termios.tcsetattr(output_fd, termios.TCSANOW, old_attr)
+                finally:
+                    render_data.finalize()
 
     def render(
         self,
